@@ -31,7 +31,7 @@ import (
 )
 
 var c19Names = []string{"10", "9", "B", "a", "é"}
-var c19Kinds = []string{"absent", "good1", "good2", "good3", "empty", "cut-in-header", "cut-in-entity", "cut-last-byte", "corrupt", "sub-directory", "vanishes", "replaced-by-directory", "symlink-to-good-file", "dangling-symlink", "good2-header-last", "good-ending-in-LF", "good-ending-in-CR", "symlink-to-itself", "unix-socket"}
+var c19Kinds = []string{"absent", "good1", "good2", "good3", "empty", "cut-in-header", "cut-in-entity", "cut-last-byte", "corrupt", "sub-directory", "vanishes", "replaced-by-directory", "symlink-to-good-file", "dangling-symlink", "good2-header-last", "good-ending-in-LF", "good-ending-in-CR", "symlink-to-itself", "unix-socket", "good-without-header-timestamp"}
 
 var c19GoodCache [][]byte
 
@@ -83,6 +83,14 @@ func c19Good() [][]byte {
 		}
 		c19GoodCache = append(c19GoodCache, b)
 	}
+	// a valid message whose header carries no timestamp (the field is optional): what it yields is the
+	// parse of its bytes, whatever the file system says about the file
+	{
+		m := newFeed(nil)
+		m.Entity = []*gtfsrt.FeedEntity{{Id: sp("e0"), TripUpdate: &gtfsrt.TripUpdate{Trip: &gtfsrt.TripDescriptor{TripId: sp("064500_L..N02"), RouteId: sp("L"), StartDate: sp("20231114")},
+			Vehicle: &gtfsrt.VehicleDescriptor{Id: sp("train without clock")}, StopTimeUpdate: []*gtfsrt.TripUpdate_StopTimeUpdate{{StopId: sp("L02N"), Arrival: &gtfsrt.TripUpdate_StopTimeEvent{Time: cp2(1700000300)}}}}}}
+		c19GoodCache = append(c19GoodCache, marshalFeed(m))
+	}
 	return c19GoodCache
 }
 
@@ -105,6 +113,8 @@ func c19Content(kind int) []byte {
 		return g[4]
 	case "good-ending-in-CR":
 		return g[5]
+	case "good-without-header-timestamp":
+		return g[6]
 	case "empty":
 		return []byte{}
 	case "cut-in-header":
@@ -364,7 +374,7 @@ func scratchBase() string {
 	return ""
 }
 
-var c19QuickKinds = []int{0, 1, 2, 4, 6, 8, 9, 10, 12, 14, 15, 17, 18}
+var c19QuickKinds = []int{0, 1, 2, 4, 6, 8, 9, 10, 12, 14, 15, 17, 18, 19}
 
 // c19NameOrder: good files under names whose byte order differs from "natural", extension-less,
 // case-insensitive or numeric order: every subset of 4 of 22 names.
@@ -628,7 +638,7 @@ func init() {
 	register(&Check{
 		ID:    "C19",
 		Level: "fault_enumeration",
-		Rule: "every assignment of {absent, good1, good2, good3, empty, cut-in-header, cut-in-entity, cut-last-byte, corrupt, sub-directory, vanishes after listing, replaced by a directory after listing, symlink to a good file, dangling symlink, a valid feed encoded header-last, valid feeds ending in the bytes 0x0A / 0x0D, symlink to itself (ELOOP), unix socket (ENXIO)} to the names 10, 9, B, a, é (thorough: all 19 kinds on 5 names; quick: 13 kinds on the first 4 names) - x 2 creation orders, on a real temporary directory; plus every 4-subset of 22 file names (byte order differing from extension-less / natural / case-insensitive order; names that are not valid UTF-8, contain a newline, start with a blank, a dot or a dash, contain '..' or brackets, are 240 bytes long), the subsets containing the first name also inside directories named feeds[2024] / snap[1]*? / back\\slash .. next to a sibling such a pattern would match; plus runs of 1..520 bad entries in a row before / between / after good files; good files in a non-canonical field order (header last) and ending in the bytes 0x0A / 0x0D; plus 3-name directories replayed while the wall clock jumps 2 s before chosen Next calls (the source reports progress once per second); plus directories in which one of three good files is 70 KiB / 1 MiB / 4 MiB / 17 MiB large, at each position; " +
+		Rule: "every assignment of {absent, good1, good2, good3, empty, cut-in-header, cut-in-entity, cut-last-byte, corrupt, sub-directory, vanishes after listing, replaced by a directory after listing, symlink to a good file, dangling symlink, a valid feed encoded header-last, valid feeds ending in the bytes 0x0A / 0x0D, symlink to itself (ELOOP), unix socket (ENXIO), a valid feed whose header has no timestamp} to the names 10, 9, B, a, é (thorough: all 20 kinds on 5 names; quick: 14 kinds on the first 4 names) - x 2 creation orders, on a real temporary directory; plus every 4-subset of 22 file names (byte order differing from extension-less / natural / case-insensitive order; names that are not valid UTF-8, contain a newline, start with a blank, a dot or a dash, contain '..' or brackets, are 240 bytes long), the subsets containing the first name also inside directories named feeds[2024] / snap[1]*? / back\\slash .. next to a sibling such a pattern would match; plus runs of 1..520 bad entries in a row before / between / after good files; good files in a non-canonical field order (header last) and ending in the bytes 0x0A / 0x0D; plus 3-name directories replayed while the wall clock jumps 2 s before chosen Next calls (the source reports progress once per second); plus directories in which one of three good files is 70 KiB / 1 MiB / 4 MiB / 17 MiB large, at each position; " +
 			"non-trivial = distinct directories with >= 2 entries; oracle = independent parses of the readable, parseable entries in byte order of their names, nil afterwards, and equality of the journals",
 		Assumptions: []string{"unreadable means: is a directory or no longer exists (the checks run as root, so permission faults cannot be produced)", "whether a damaged file still 'parses as GTFS-realtime' is decided independently of the library, by strictly decoding its bytes as a FeedMessage"},
 		Scenarios: func(tier string) []*Scenario {
